@@ -25,5 +25,15 @@ CLAIMED = {
   note="Bounds: all 32 nil-ness combinations of the flow-control members with arbitrary int32 numbers; endpoints = http(s):// + <= 3/4 arbitrary bytes; <= 3 servers. PEM/x509 content and object-meta validation are outside. Trusted: gosym, z3; native witness replay.",
   technique="symbolic execution of go/ssa (incl. net/url from source) + SMT (QF_BV)",
   ref="9/C16"),
+ "C07": dict(
+  text="Bounded symbolic model checking of the real calculateNextQuota (one inductive report step from an arbitrary recorded state): float64 code is executed under a sound rounding relation over the reals, inputs are mathematical integers; obligations: 1 <= quota <= limit, recorded sum stays within the limit, no growth while over-committed, burst scaled and bounded.",
+  note="Bounds: limit/instances/upstream level/global burst from stated concrete grids (so the arithmetic stays linear), allocated/used <= 2^21, 0 <= current <= allocated, level <= 10^6; quick tier assumes consistent reports. Some 'sum stays within limit' obligations on the growth paths exceed the quick solver timeout (z3 needs ~190 s each) and are printed as INCONCLUSIVE, not as success. Float model = level-1 rounding relation (no NaN/Inf/subnormals; division by zero is a poison value). Overlapping reports: outside (lock discipline not encoded yet).",
+  technique="symbolic execution of go/ssa + SMT (LIRA with rounding relation for float64)",
+  ref="9/C07"),
+ "C14": dict(
+  text="Bounded symbolic model checking of the real endpointPickStrategy.Pop: strict round-robin for every cursor value with an explicit subset; bounded imbalance under an arbitrary, per-pick map iteration order (symbolic permutations).",
+  note="Bounds: k = 2..3 (quick) / 4 (thorough) ready endpoints, N <= 2k+1 picks, cursor any uint64 below 2^64-16; any-order: k=2 N<=6/8, k=3 N<=3/4. Sequential semantics: concurrent pickers are not decided here (atomic.AddUint64 is a single event; stated). sync.Map is a reference model.",
+  technique="symbolic execution of go/ssa + SMT (QF_BV)",
+  ref="9/C14"),
 }
 NOT_APPLICABLE = {}
